@@ -5,6 +5,7 @@ package interp
 // symbolic bytes/scalars explicitly, or aborts the path as unsupported.
 
 import (
+	"unicode"
 	"fmt"
 	"go/types"
 	"math"
@@ -24,6 +25,7 @@ var allowPrefix = []string{
 	"errors.New", "(*errors.errorString)", "errors.Join", "(*errors.joinError)",
 	"unicode/utf8.",
 	"strings.HasPrefix", "strings.HasSuffix", "strings.TrimPrefix", "strings.TrimSuffix", "strings.Repeat",
+	"strings.TrimSpace", "strings.TrimFunc", "strings.TrimLeftFunc", "strings.TrimRightFunc", "strings.indexFunc", "strings.lastIndexFunc",
 	"iter.", "slices.", "cmp.", "maps.", "sort.", "(sort.", "(*sort.",
 	"math/bits.", "encoding/binary.", "(encoding/binary.",
 	"go.uber.org/multierr.", "(*go.uber.org/multierr.", "(go.uber.org/multierr.",
@@ -70,6 +72,9 @@ type genericExt func(fr *frame, fn *ssa.Function, args []value) value
 func genericExternal(name string) genericExt {
 	if strings.HasPrefix(name, "iter.Pull[") {
 		return extIterPull
+	}
+	if ext := atomicPointerExternal(name); ext != nil {
+		return ext
 	}
 	return nil
 }
@@ -527,7 +532,24 @@ func init() {
 		if s, ok := a[0].(string); ok {
 			return strings.TrimSpace(s)
 		}
-		panic(unsupportedAbort{"TrimSpace of symbolic string"})
+		// symbolic bytes: interpret the real code (asciiSpace table, unicode.IsSpace model below)
+		return interpretInstead{}
+	}
+	externals["unicode.IsSpace"] = func(fr *frame, a []value) value {
+		r, ok := a[0].(sym)
+		if !ok {
+			return unicode.IsSpace(rune(asInt64(a[0])))
+		}
+		// White_Space: U+0009..000D, 0020, 0085, 00A0, 1680, 2000..200A, 2028, 2029, 202F, 205F, 3000
+		in := func(lo, hi uint32) string {
+			if lo == hi {
+				return "(= " + r.t + " " + bvLit(uint64(lo), 32) + ")"
+			}
+			return "(and (bvuge " + r.t + " " + bvLit(uint64(lo), 32) + ") (bvule " + r.t + " " + bvLit(uint64(hi), 32) + "))"
+		}
+		t := "(or " + in(0x09, 0x0d) + " " + in(0x20, 0x20) + " " + in(0x85, 0x85) + " " + in(0xa0, 0xa0) + " " + in(0x1680, 0x1680) + " " +
+			in(0x2000, 0x200a) + " " + in(0x2028, 0x2029) + " " + in(0x202f, 0x202f) + " " + in(0x205f, 0x205f) + " " + in(0x3000, 0x3000) + ")"
+		return sym{kBool, t}
 	}
 	// strings.Builder: structure{addr *Builder, buf []byte}
 	bld := func(a value) *structure {
@@ -874,7 +896,11 @@ func init() {
 	externals["(time.Time).UnixNano"] = func(fr *frame, a []value) value { return timeNanos(a[0]) }
 	externals["(time.Time).UTC"] = func(fr *frame, a []value) value { return a[0] }
 	externals["(time.Time).In"] = func(fr *frame, a []value) value {
-		panic(unsupportedAbort{"(time.Time).In"})
+		// the Time model is UTC only; LoadLocation yields the nil location for "UTC"
+		if p, ok := a[1].(*value); ok && p == nil {
+			return a[0]
+		}
+		panic(unsupportedAbort{"(time.Time).In with a non-UTC location"})
 	}
 	externals["(time.Time).IsZero"] = func(fr *frame, a []value) value {
 		s := a[0].(structure)
@@ -909,6 +935,18 @@ func init() {
 	calendar := func(f func(t time.Time) value) externalFn {
 		return func(fr *frame, a []value) value { return f(toGoTime(a[0])) }
 	}
+	externals["(time.Time).Date"] = func(fr *frame, a []value) value {
+		t := toGoTime(a[0])
+		y, m, d := t.Date()
+		return tuple{y, int(m), d}
+	}
+	externals["(time.Time).Clock"] = func(fr *frame, a []value) value {
+		t := toGoTime(a[0])
+		h, m, s := t.Clock()
+		return tuple{h, m, s}
+	}
+	externals["(time.Time).Nanosecond"] = calendar(func(t time.Time) value { return t.Nanosecond() })
+	externals["(time.Time).Location"] = func(fr *frame, a []value) value { return (*value)(nil) }
 	externals["(time.Time).Year"] = calendar(func(t time.Time) value { return t.Year() })
 	externals["(time.Time).Month"] = calendar(func(t time.Time) value { return int(t.Month()) })
 	externals["(time.Time).Day"] = calendar(func(t time.Time) value { return t.Day() })
@@ -1119,7 +1157,8 @@ func init() {
 	externals["net/url.QueryUnescape"] = func(fr *frame, a []value) value {
 		str, ok := a[0].(string)
 		if !ok {
-			panic(unsupportedAbort{"url.QueryUnescape of symbolic string"})
+			// symbolic bytes: unescape/ishex/unhex use no package table, interpret the real code
+			return interpretInstead{}
 		}
 		out, err := url.QueryUnescape(str)
 		if err != nil {
